@@ -113,6 +113,10 @@ class Metric:
 
     def value(self, g):
         n = len(g.nodes)
+        if self.kind.startswith('big_'):
+            # the same metric at a magnitude of 1e9: differences of a few units are far below what a relative
+            # tolerance written for values around 1 lets through (all values stay exact in binary64)
+            return 1e9 + Metric(self.kind[4:]).value(g)
         if self.kind == 'size':
             return float(n)
         if self.kind == 'neg_size':
@@ -345,13 +349,14 @@ def random_config(rng, optimiser=None, multi=None):
     optimiser = optimiser or rng.choice(list(OPTIMISERS))
     multi = rng.random() < 0.35 if multi is None else multi
     if multi:
-        metrics = rng.choice([['size', 'depth'], ['balance', 'label'], ['plateau', 'neg_size'], ['label', 'depth', 'size']])
+        metrics = rng.choice([['size', 'depth'], ['balance', 'label'], ['plateau', 'neg_size'], ['label', 'depth', 'size'],
+                              ['big_size', 'big_depth'], ['big_neg_size', 'big_depth'], ['big_balance', 'big_label', 'big_size']])
     elif rng.random() < 0.3:
         # single objective with supplementary metrics: ties on the primary value are decided by the others
         metrics = rng.choice([['plateau', 'size'], ['plateau', 'neg_size'], ['label', 'depth'], ['balance', 'size'],
                               ['plateau', 'label', 'size']])
     else:
-        metrics = [rng.choice(['size', 'neg_size', 'depth', 'plateau', 'label', 'balance'])]
+        metrics = [rng.choice(['size', 'neg_size', 'depth', 'plateau', 'label', 'balance', 'big_size', 'big_label'])]
     cfg = {
         'optimiser': optimiser,
         'objective': {'metrics': metrics, 'multi': multi},
@@ -458,6 +463,20 @@ def passthrough_config(rng, optimiser=None):
                     'scheme': rng.choice(['steady_state', 'steady_state', 'parameter_free']),
                     'mutation_prob': rng.choice([0.3, 0.4, 0.5])})
         cfg['objective']['faults'] = {'all_after': [5 + rng.choice([2, 3, 4, 5, 6]), kind]}
+    cfg.pop('rule', None)
+    return cfg
+
+
+def magnitude_config(rng):
+    """objective values around 1e9 that differ by a few units (or single objective with supplementary values there)"""
+    multi = rng.random() < 0.7
+    cfg = random_config(rng, optimiser=rng.choice(['evo', 'random_search', 'pop_random_mutation', 'surrogate', 'random_mutation']),
+                        multi=multi)
+    if multi:
+        cfg['objective']['metrics'] = rng.choice([['big_size', 'big_depth'], ['big_neg_size', 'big_depth'],
+                                                  ['big_balance', 'big_label', 'big_size']])
+    else:
+        cfg['objective']['metrics'] = rng.choice([['big_plateau', 'big_size'], ['big_label'], ['big_balance', 'big_neg_size']])
     cfg.pop('rule', None)
     return cfg
 
